@@ -39,6 +39,17 @@ def measure(rec, fn, cls, detail, A, Uf, sf, Vf, sv_exp, ey_exp, R, full):
     rec.flag(t, "ValuesSortedNonNegative", bool(np.all(np.diff(sf) <= 8 * EPS * scale) and np.all(np.asarray(sf) >= -8 * EPS * scale)))
     rec.units(t, "OrthonormalU", S.ortho_units(Uf))
     rec.units(t, "OrthonormalV", S.ortho_units(Vf))
+    if cls == "graded-spectrum":
+        # recorded finding: contracting the real singular vectors loses quaternion orthonormality like eps * s_max / gap
+        # (continuous form of the degenerate-spectrum finding).  The weaker clauses bound the loss by that quantity, so a
+        # change that squares the conditioning (Gram-matrix shortcuts) is still reported.
+        pos = [float(v) for v in sv_exp if v > 0]
+        gap = min([pos[i] - pos[i + 1] for i in range(len(pos) - 1)] + [pos[-1]]) if pos else 1.0
+        for nm, M in (("OrthonormalUUpToGap", Uf), ("OrthonormalVUpToGap", Vf)):
+            G = omul(oherm(M), M)
+            for i in range(M.shape[1]):
+                G[i, i, 0] -= 1.0
+            rec.lgle(t, nm, float(np.max(np.abs(G))), 2.0 ** -52 * (scale / gap) * 4 * max(m, n), 6 * 64)
     kk = len(sf)
     D = np.zeros((Uf.shape[1], Vf.shape[1], 4))
     for i in range(min(kk, Uf.shape[1], Vf.shape[1])):
@@ -76,6 +87,31 @@ def _class_job(args):
         cls = "degenerate-spectrum" if degenerate_trunc(sv, m, n, R) else "simple-spectrum"
         measure(rec, "classical_qsvd", cls, dict(detail, R=R), A, q_to_float(Uq), np.asarray(s), q_to_float(Vq),
                 sv, st["out"]["ey"][R - 1], R, False)
+    return rec.events, rec.info
+
+
+def _graded_job(args):
+    """ill-conditioned inputs: exactly representable graded singular values (cond 2^10 .. 2^40) between exactly unitary
+    factors; a Gram-matrix shortcut (eigenvalues of A^H A) would lose the small singular values"""
+    seed, thorough = args
+    from .. import exactfam as E
+    Q = lib().qsvd
+    rec = S.Rec()
+    for (m, n) in ((3, 3), (4, 3), (3, 4), (5, 5)) + (((5, 4), (6, 5)) if thorough else ()):
+        k = min(m, n)
+        for ce in (10, 20, 30, 40):
+            sv = [2.0 ** (3 - (ce * i) // max(k - 1, 1)) for i in range(k)]
+            Un, U = E.ulib(m)[(seed + ce) % len(E.ulib(m))]
+            Vn, V = E.ulib(n)[(seed + 2 * ce + 1) % len(E.ulib(n))]
+            A = E.usv(U, sv, V)
+            detail = {"kind": "graded", "shape": [m, n], "s": sv, "U": Un, "V": Vn, "cond": "2^%d" % ce}
+            Aq = q_from_float(A)
+            Uq, s, Vq = Q.classical_qsvd_full(Aq.copy())
+            measure(rec, "classical_qsvd_full", "graded-spectrum", detail, A, q_to_float(Uq), np.asarray(s), q_to_float(Vq), sv, None, None, True)
+            for R in range(1, k + 1):
+                Uq, s, Vq = Q.classical_qsvd(Aq.copy(), R)
+                measure(rec, "classical_qsvd", "graded-spectrum", dict(detail, R=R), A, q_to_float(Uq), np.asarray(s), q_to_float(Vq),
+                        sv, sum(v * v for v in sv[R:]), R, False)
     return rec.events, rec.info
 
 
@@ -127,6 +163,7 @@ def run(ctx, replay=None):
     recs = par.pmap(_class_job, jobs)
     nrand = 48 if thorough else 8
     recs += par.pmap(_rand_job, [(ctx.seed * 5003 + i, 12) for i in range(nrand)], chunk=1)
+    recs += par.pmap(_graded_job, [(ctx.seed * 13 + i, thorough) for i in range(3 if thorough else 1)], chunk=1)
     events, info = S.merge(recs)
     S.judge(ctx, events, info)
     pats = {}
